@@ -24,12 +24,6 @@ theorem pin_compiler_param_value_anchor : pin_compiler_param_value = "79e7de7cda
 theorem pin_compiler_compile_to_dict_function_anchor : pin_compiler_compile_to_dict_function = "9c1b94dcff42b825" := rfl
 /-- `CompiledExpression` (core/compiler.py) -/
 theorem pin_compiler_CompiledExpression_anchor : pin_compiler_CompiledExpression = "46e07aadf48eb02a" := rfl
-/-- `extract_all_linear_coefficients` (analysis.py) -/
-theorem pin_analysis_extract_all_linear_coefficients_anchor : pin_analysis_extract_all_linear_coefficients = "12263a09e6ffedff" := rfl
-/-- `_try_extract_fast_binop` (analysis.py) -/
-theorem pin_analysis_try_extract_fast_binop_anchor : pin_analysis_try_extract_fast_binop = "9a441977d7cc69cd" := rfl
-/-- `_vector_is_aligned` (analysis.py) -/
-theorem pin_analysis_vector_is_aligned_anchor : pin_analysis_vector_is_aligned = "b6d6839e542cf6b0" := rfl
 /-- `extract_linear_coefficient` (analysis.py) -/
 theorem pin_analysis_extract_linear_coefficient_anchor : pin_analysis_extract_linear_coefficient = "8356a37b6239dea1" := rfl
 /-- `extract_constant_term` (analysis.py) -/
@@ -40,7 +34,7 @@ theorem pin_constraints_Constraint_get_variables_anchor : pin_constraints_Constr
 theorem pin_constraints_make_constraint_anchor : pin_constraints_make_constraint = "f94a0d73e3549836" := rfl
 
 /-- every function the model of C06 transcribes (and no translator covers) is the one it was read from -/
-theorem anchors : pin_scipy_solver_solve_scipy = "e7c69a3a73fa09d9" ∧ pin_lp_solver_solve_lp = "244fed8ae6b2b560" ∧ pin_compiler_compile_expression = "db0179ead8cd3aa4" ∧ pin_compiler_compile_cached = "4ab132ae0ee10316" ∧ pin_compiler_estimate_tree_depth = "6602d5290a7341a7" ∧ pin_compiler_param_value = "79e7de7cdae81265" ∧ pin_compiler_compile_to_dict_function = "9c1b94dcff42b825" ∧ pin_compiler_CompiledExpression = "46e07aadf48eb02a" ∧ pin_analysis_extract_all_linear_coefficients = "12263a09e6ffedff" ∧ pin_analysis_try_extract_fast_binop = "9a441977d7cc69cd" ∧ pin_analysis_vector_is_aligned = "b6d6839e542cf6b0" ∧ pin_analysis_extract_linear_coefficient = "8356a37b6239dea1" ∧ pin_analysis_extract_constant_term = "56af33ef128b1672" ∧ pin_constraints_Constraint_get_variables = "1984ddae9519490c" ∧ pin_constraints_make_constraint = "f94a0d73e3549836" :=
-  ⟨pin_scipy_solver_solve_scipy_anchor, pin_lp_solver_solve_lp_anchor, pin_compiler_compile_expression_anchor, pin_compiler_compile_cached_anchor, pin_compiler_estimate_tree_depth_anchor, pin_compiler_param_value_anchor, pin_compiler_compile_to_dict_function_anchor, pin_compiler_CompiledExpression_anchor, pin_analysis_extract_all_linear_coefficients_anchor, pin_analysis_try_extract_fast_binop_anchor, pin_analysis_vector_is_aligned_anchor, pin_analysis_extract_linear_coefficient_anchor, pin_analysis_extract_constant_term_anchor, pin_constraints_Constraint_get_variables_anchor, pin_constraints_make_constraint_anchor⟩
+theorem anchors : pin_scipy_solver_solve_scipy = "e7c69a3a73fa09d9" ∧ pin_lp_solver_solve_lp = "244fed8ae6b2b560" ∧ pin_compiler_compile_expression = "db0179ead8cd3aa4" ∧ pin_compiler_compile_cached = "4ab132ae0ee10316" ∧ pin_compiler_estimate_tree_depth = "6602d5290a7341a7" ∧ pin_compiler_param_value = "79e7de7cdae81265" ∧ pin_compiler_compile_to_dict_function = "9c1b94dcff42b825" ∧ pin_compiler_CompiledExpression = "46e07aadf48eb02a" ∧ pin_analysis_extract_linear_coefficient = "8356a37b6239dea1" ∧ pin_analysis_extract_constant_term = "56af33ef128b1672" ∧ pin_constraints_Constraint_get_variables = "1984ddae9519490c" ∧ pin_constraints_make_constraint = "f94a0d73e3549836" :=
+  ⟨pin_scipy_solver_solve_scipy_anchor, pin_lp_solver_solve_lp_anchor, pin_compiler_compile_expression_anchor, pin_compiler_compile_cached_anchor, pin_compiler_estimate_tree_depth_anchor, pin_compiler_param_value_anchor, pin_compiler_compile_to_dict_function_anchor, pin_compiler_CompiledExpression_anchor, pin_analysis_extract_linear_coefficient_anchor, pin_analysis_extract_constant_term_anchor, pin_constraints_Constraint_get_variables_anchor, pin_constraints_make_constraint_anchor⟩
 
 end Optyx.Props.PinsC06
